@@ -46,6 +46,13 @@ def check(ctx):
 
     # 2. model -> implementation (journal): every distinct abstract state of the bounded model, by one representative
     #    history, plus random deep walks, replayed on a real state.State over a real muxdb
+    #    teeth: if Stage wrote the journalled storage into the tries the State reads from (no copy), a later RevertTo could
+    #    not undo it - the model with StageFolds = TRUE must violate ReadsArePlainMap / StageIsCanonical
+    t = ctx.tlc(sc.SUB, "MC_StateJournal", cfg="MC_StateJournal_teeth_stagefolds.cfg", workers=4, timeout=300,
+                label="teeth: Stage folds the journal into the base", count=False)
+    if t.timeout or t.invariant not in ("ReadsArePlainMap", "StageIsCanonical"):
+        raise Infra("teeth config MC_StateJournal_teeth_stagefolds.cfg did not violate the design invariants (%s)" % (t.invariant or t.error))
+    ctx.cov["teeth"] = "Stage folding the journal into the base violates %s after %d states" % (t.invariant, t.distinct)
     roots, rstats, rfiles = {}, {}, []
     #    narrow and deep: one address, 2 keys, <= 5 (6) operations - write, stage, commit, reopen, write again; delete,
     #    recreate, checkpoints: the exhaustive replays re-open MODIFIED bases
@@ -104,13 +111,13 @@ def check(ctx):
     if stats:
         for k in ("deletes", "recreates", "revertsAcrossDelete", "reverts", "zeroWrites", "listWrites", "commits", "encodeStorageWrites",
                   "logTransferRefundOps", "revertsDroppingLogs", "buildStorageTrie", "siblingCommits", "stateSwitches",
-                  "blindStateObjects", "blindStorageWrites"):
+                  "blindStateObjects", "blindStorageWrites", "stageThenRevertBelowIt"):
             ctx.cov["trace_" + k] = sum(s[k] for s in stats)
         ctx.cov["trace_max_addresses"] = max(s["addresses"] for s in stats)
         ctx.cov["trace_max_keys_per_address"] = max(s["maxKeysPerAddr"] for s in stats)
     ctx.cov["trie"] = tstats.get("trie", {})
     ctx.cov["independent_encoder"] = tstats.get("states", {})
-    for k in ("build_storage_trie_calls", "committed_leaf_checks", "side_journal_checks", "blind_steps"):
+    for k in ("build_storage_trie_calls", "committed_leaf_checks", "side_journal_checks", "blind_steps", "sparse_steps"):
         ctx.cov["replay_" + k] = rstats.get(k, 0)
     ctx.cov["traces_validated_against_impl"] += accepted + rstats.get("behaviours_replayed", 0)
     tc = tstats.get("trie", {})
@@ -141,6 +148,7 @@ def check(ctx):
         "blake2b/keccak are injective oracles: the root is modelled as the canonical content; the harness checks equal content <=> equal real root over everything it stages",
         "the 60-line reference Merkle-Patricia hasher (RLP, hex-prefix, blake2b-256) in harness/cmd/triecheck is trusted; it agrees with the real trie on the unchanged tree for all enumerated contents",
         "the independent account-leaf encoder (RLP[balance, energy, blockTime, master, codeHash, storageRoot] over blake2b(address) / blake2b(key), explicit empty storage root) in harness/cmd/triecheck/states.go is trusted; it is applied to the small state universes of the replays, the large random histories rely on the content<->root bijection",
+        "Stage is an operation at any point of every history (model, replays, traces) and must leave the State unchanged; sparse replay chunks (every fifth) read only slot 1 before the first RevertTo, so that slots written, staged and reverted are first read from the trie the State keeps open; the random runs checkpoint, write never-read slots, Stage, revert below them, read everything, write and Stage again",
         "blind State objects (every fifth replay chunk, every third re-open of the random runs, one per sibling scenario) call no storage getter before their first Stage, so that Stage opens the base storage tries itself; their bases/parents are committed at conflict number 1, with and without a conflict-0 sibling that wrote the same storage trie",
         "BuildStorageTrie is only specified (and only called) for addresses not deleted in the calling State object; sibling State objects share nothing but the database",
         "integers of the specification are realized as fixed byte strings by the driver (addresses, keys, code blobs, scalar and raw-list storage values); getter results outside that alphabet decode to -1 and can never match",
